@@ -448,7 +448,12 @@ func cmdCheck(args []string) int {
 	}
 	// bounded stand-ins (labelled bounded, never counted as proved): the property's oracle on the unchanged tree
 	var standins []map[string]interface{}
-	if sd, ok := boundedStandins[*property]; ok && *only == "" {
+	sd, ok := boundedStandins[*property]
+	if !ok && *tier == "thorough" && hasOracle(*property) {
+		// thorough tier: the replay oracle of every property is also run as a bounded cross-check of the contracts
+		sd, ok = "cross-check (thorough tier only): the property's independent replay oracle run as a bounded search on this tree; not part of the proof and never counted as proved", true
+	}
+	if ok && *only == "" {
 		budget := 2500
 		if *tier == "thorough" {
 			budget = 30000
